@@ -366,6 +366,35 @@ func cliC13(scratch string, part *h.Partial) map[string]any {
 				wantExit: wantRoot, mustRun: mustG, mustNot: mustNotG, sig: "guard=" + g.name + " pos=parallel-root"})
 		}
 	}
+	// a deduplicated guarded task whose first, failing, execution was tolerated (deferred call: errors are
+	// ignored) must still fail a later caller
+	for _, g := range guards {
+		if strings.HasPrefix(g.name, "platform-") {
+			continue
+		}
+		gb := strings.Replace(guardedBody(g), "  guarded:\n", "  guarded:\n    run: once\n", 1)
+		dv := ""
+		if g.vars != "" {
+			dv = "          vars: " + g.vars + "\n"
+		}
+		tf := hdr + "  top:\n    cmds:\n      - task: inner\n      - task: guarded\n" + callVars(g) + "      - " + probe("after") + "\n" +
+			"  inner:\n    cmds:\n      - defer:\n          task: guarded\n" + dv + "      - " + probe("inner") + "\n" + gb
+		cases = append(cases, cliCase{name: g.name + " @once-after-tolerated-failure", files: map[string]string{"Taskfile.yml": tf}, args: []string{"top"},
+			wantExit: nonZero(), mustRun: []string{"inner"}, mustNot: []string{"G1", "G2", "after"}, sig: "guard=" + g.name + " pos=once-after-tolerated-failure"})
+	}
+	// the same task called several times in one invocation: each call is checked on its own variables
+	enumBody := "  guarded:\n    requires:\n      vars:\n        - name: RQ\n          enum: [good, fine]\n    cmds:\n      - " + probe("G-{{.RQ}}") + "\n"
+	reqBody := "  guarded:\n    requires:\n      vars: [RQ]\n    cmds:\n      - " + probe("G-{{.RQ}}") + "\n"
+	cases = append(cases,
+		cliCase{name: "enum: good, fine, then bad in a for loop", files: map[string]string{"Taskfile.yml": hdr + "  top:\n    cmds:\n      - for: [good, fine, bad]\n        task: guarded\n        vars: {RQ: '{{.ITEM}}'}\n      - " + probe("after") + "\n" + enumBody},
+			args: []string{"top"}, wantExit: nonZero(), mustRun: []string{"G-good", "G-fine"}, mustNot: []string{"G-bad", "after"}, sig: "guard=enum pos=later-call-bad-value"},
+		cliCase{name: "enum: good dep, then bad call", files: map[string]string{"Taskfile.yml": hdr + "  top:\n    deps:\n      - task: guarded\n        vars: {RQ: good}\n    cmds:\n      - task: guarded\n        vars: {RQ: bad}\n      - " + probe("after") + "\n" + enumBody},
+			args: []string{"top"}, wantExit: nonZero(), mustRun: []string{"G-good"}, mustNot: []string{"G-bad", "after"}, sig: "guard=enum pos=later-call-bad-value"},
+		cliCase{name: "requires: call with the variable, then without", files: map[string]string{"Taskfile.yml": hdr + "  top:\n    cmds:\n      - task: guarded\n        vars: {RQ: x}\n      - task: guarded\n      - " + probe("after") + "\n" + reqBody},
+			args: []string{"top"}, wantExit: nonZero(), mustRun: []string{"G-x"}, mustNot: []string{"G-", "after"}, sig: "guard=requires pos=later-call-missing"},
+		cliCase{name: "requires: two roots, second lacks the variable", files: map[string]string{"Taskfile.yml": hdr + "  ok:\n    cmds:\n      - task: guarded\n        vars: {RQ: x}\n" + reqBody},
+			args: []string{"ok", "guarded"}, wantExit: []int{206}, mustRun: []string{"G-x"}, mustNot: []string{"G-"}, sig: "guard=requires pos=later-root-missing"},
+	)
 	// --force skips preconditions of the named task (documented); it must not skip the other guards
 	for _, g := range guards {
 		if g.code <= 0 {
